@@ -19,7 +19,7 @@ LEVEL_NOTE = ('partial: "input frame untouched" and "requested dtype" are observ
               'frames; dtype compared) and by the regenerated effect table of C10, not proved about NumPy; Spectrum.sample is a '
               'contract (C13/C15); float rounding is not modelled (test data is dyadic so float64 is exact).')
 TECHNIQUE = 'Lean 4 proof (omega/Int.ediv-emod, ordered-field algebra, Int.floor) over a hand model with exact differential correspondence'
-GEN = []
+GEN = ['Effects']
 OPS = ['C16']
 RULE = ('cases: collect_charge on cubes (1..4 slices, shapes 1..5, dyadic signed photons, 2-D input), QE as scalar / vector / Spectrum '
         'in nm, um, m, angstrom (grid and sample units independent); Bayer: patterns d=1..3 with random colours (upper/lower case), '
